@@ -35,6 +35,7 @@ const (
 	verifShort   // returns its own result without calling onward
 	verifFail    // returns an error without calling onward
 	verifRewrite // calls onward, then replaces the result
+	verifDerive  // calls onward with a derived context and another request / a wrapped stream
 	verifNumBehaviours
 )
 
@@ -50,6 +51,16 @@ type verifC16 struct {
 	shortRes *verifTok
 	failErr  error
 	stream   *verifServerStream
+	// what the next stage of the chain must be handed: exactly what the stage
+	// before it passed onward
+	curCtx    context.Context
+	curReq    interface{}
+	curStream grpc.ServerStream
+}
+
+func (c *verifC16) begin() {
+	c.events = nil
+	c.curCtx, c.curReq, c.curStream = c.ctx, c.req, c.stream
 }
 
 func (c *verifC16) unaryInt(name string, behaviour int, wantMethod string) grpc.UnaryServerInterceptor {
@@ -57,9 +68,13 @@ func (c *verifC16) unaryInt(name string, behaviour int, wantMethod string) grpc.
 		c.events = append(c.events, name)
 		zv.Assert(info.FullMethod == wantMethod, "unary-interceptor-told-full-method")
 		zv.Assert(info.Server == interface{}(c.srv), "unary-interceptor-told-server")
-		zv.Assert(req == interface{}(c.req), "unary-request-unchanged")
-		zv.Assert(ctx == c.ctx, "unary-context-unchanged")
+		zv.Assert(req == c.curReq, "unary-request-is-what-the-previous-stage-passed")
+		zv.Assert(ctx == c.curCtx, "unary-context-is-what-the-previous-stage-passed")
 		switch behaviour {
+		case verifDerive:
+			c.curCtx = context.WithValue(ctx, verifTok{9}, name)
+			c.curReq = &verifTok{10 + len(c.events)}
+			return handler(c.curCtx, c.curReq)
 		case verifShort:
 			return c.shortRes, nil
 		case verifFail:
@@ -78,8 +93,11 @@ func (c *verifC16) streamInt(name string, behaviour int, wantMethod string, want
 		zv.Assert(info.FullMethod == wantMethod, "stream-interceptor-told-full-method")
 		zv.Assert(info.IsClientStream == wantCS && info.IsServerStream == wantSS, "stream-interceptor-told-streaming-flags")
 		zv.Assert(srv == interface{}(c.srv), "stream-interceptor-told-server")
-		zv.Assert(ss == grpc.ServerStream(c.stream), "stream-passed-unchanged")
+		zv.Assert(ss == c.curStream, "stream-is-what-the-previous-stage-passed")
 		switch behaviour {
+		case verifDerive:
+			c.curStream = &verifServerStream{id: 10 + len(c.events)}
+			return handler(srv, c.curStream)
 		case verifShort:
 			return nil
 		case verifFail:
@@ -153,7 +171,8 @@ func Verif_C16_Decorate() {
 			}
 			h := func(ctx context.Context, req interface{}) (interface{}, error) {
 				c.events = append(c.events, "handler:"+name)
-				zv.Assert(req == interface{}(c.req), "handler-gets-request-unchanged")
+				zv.Assert(req == c.curReq, "handler-gets-the-request-the-last-interceptor-passed")
+				zv.Assert(ctx == c.curCtx, "handler-gets-the-context-the-last-interceptor-passed")
 				if c.herr != nil {
 					return nil, c.herr
 				}
@@ -172,7 +191,7 @@ func Verif_C16_Decorate() {
 		orig.Streams = append(orig.Streams, grpc.StreamDesc{StreamName: name, ClientStreams: csFlags[i], ServerStreams: ssFlags[i],
 			Handler: func(srv interface{}, ss grpc.ServerStream) error {
 				c.events = append(c.events, "handler:"+name)
-				zv.Assert(ss == grpc.ServerStream(c.stream), "handler-gets-stream-unchanged")
+				zv.Assert(ss == c.curStream, "handler-gets-the-stream-the-last-interceptor-passed")
 				return c.herr
 			}})
 	}
@@ -257,7 +276,7 @@ func Verif_C16_Decorate() {
 		}
 	}
 
-	c.events = nil
+	c.begin()
 	if isUnary {
 		md := desc.Methods[target]
 		zv.Assert(md.MethodName == fmt.Sprintf("U%d", target), "method-name-kept")
@@ -274,7 +293,7 @@ func Verif_C16_Decorate() {
 		// a second dispatch of the same decorated method with ANOTHER transport
 		// interceptor must go through that one (nothing may be cached per method)
 		if hasT {
-			c.events = nil
+			c.begin()
 			ti2 := c.unaryInt("transport2", tB, wantMethod)
 			res2, err2 := md.Handler(c.srv, c.ctx, func(interface{}) error { return nil }, ti2)
 			names2 := append([]string{"transport2"}, names[1:]...)
@@ -282,7 +301,7 @@ func Verif_C16_Decorate() {
 			zv.Assert(res2 == wantRes && err2 == wantErr, "second-dispatch-yields-the-same-result")
 		}
 		// the original description still dispatches to the bare handler
-		c.events = nil
+		c.begin()
 		_, errO := orig.Methods[target].Handler(c.srv, c.ctx, func(interface{}) error { return nil }, nil)
 		verifCheckEvents(c, nil, true, "U", target)
 		zv.Assert(errO == c.herr, "original-description-still-runs-only-the-handler")
@@ -303,7 +322,7 @@ func Verif_C16_Decorate() {
 		verifCheckEvents(c, names[:nInt], handlerRuns, "S", si)
 		zv.Assert(err == wantErr, "error-is-what-the-chain-yields")
 		// the original description still dispatches to the bare handler
-		c.events = nil
+		c.begin()
 		errO := orig.Streams[si].Handler(c.srv, c.stream)
 		verifCheckEvents(c, nil, true, "S", si)
 		zv.Assert(errO == c.herr, "original-description-still-runs-only-the-handler")
